@@ -257,6 +257,12 @@ def run(ctx, rep) -> None:
 
     rep.attempt("schedule_expr_check", schedule_expr_check, ctx, rep, "C03.3", ctx.repo.method(DS, "step"), "perform_amortized_computation", lambda s, a, f, env: s == a or (s > a and s % f == 0), "step == start or (step > start and step % freq == 0)")
     rep.attempt("who_may_write", who_may_write, ctx, rep, "C03.3", only_kinds={"factor_matrices_eigenvectors", "corrected_eigenvalues", "factor_matrices"}, include_params=False)
+    from .c01 import inverse_root_selection
+    from .common import gradients_are_inputs
+
+    rep.rule("C03.10", "inverse-root selection per tensor order (override 0 -> default rule 2, n -> n, sequence -> entry of that order); the gradient lists handed to the preconditioner are read-only inputs (the direction is computed on a copy)")
+    rep.attempt("inverse_root_selection", inverse_root_selection, ctx, rep, "C03.10")
+    rep.attempt("gradients_are_inputs", gradients_are_inputs, ctx, rep, "C03.10")
     # ---- C03.4
     rep.attempt("dtype_rules", dtype_rules, ctx, rep, "C03.4")
     from .arith import factor_arithmetic, qr_iteration_arithmetic, soap_arithmetic
